@@ -50,6 +50,8 @@ class GBackend(Backend, backend_name="vtsym"):
     def tensor(data, dtype=None, **kw):
         if isinstance(data, GTensor):
             return data if dtype is None else data.astype(dtype)
+        if isinstance(data, (list, tuple, np.ndarray)) and dtype is not None and str(dtype).startswith("int") and all(isinstance(x, (builtins.int, np.integer)) for x in np.ravel(np.asarray(data, dtype=object))):
+            return np.asarray(data, dtype=dtype)  # a concrete integer index vector stays concrete
         t = G.lift(data)
         if dtype is not None:
             t = t.astype(dtype)
@@ -185,6 +187,22 @@ class GBackend(Backend, backend_name="vtsym"):
         res = G.opaque_tensor("LSQRES", list(b.shape[1:]) if b.ndim > 1 else [], "float64")
         return x, res, None, None
 
+    def qr(self, a, mode="reduced"):
+        """contract (A3): a = Q R with Q having orthonormal columns (reduced QR of a tall matrix)"""
+        G.log("qr")
+        a = G.lift(a)
+        m, n = a.shape
+        if not (G.same(m, n) or bool(G.SInt.lift(m) >= n)):
+            raise EngineError("qr of a wide symbolic matrix")
+        Q = G.opaque_tensor("QRQ", [G.axis_sizes(a)[0], G.axis_sizes(a)[1]], a.dtype, ortho_axis=0)
+        Rm = G.opaque_tensor("QRR", [G.axis_sizes(a)[1], G.axis_sizes(a)[1]], a.dtype)
+        try:
+            G.register_factorisation((G.name_of(Q), G.name_of(Rm)), a)
+        except EngineError:
+            pass
+        G.LA_LOG.append(dict(op="qr", A=a, Q=Q, R=Rm, at=G.caller_snapshot()))
+        return Q, Rm
+
     @staticmethod
     def check_random_state(seed):
         """Symbolic runs: the generator returns arbitrary (opaque) tensors, so 'random initialisation' means 'any value'."""
@@ -238,7 +256,7 @@ def _undecided(name):
 
 
 for _n in ("max", "min", "argmax", "argmin", "prod", "cumsum", "count_nonzero",
-           "maximum", "minimum", "qr", "svd", "eigh", "sort", "argsort", "flip", "log", "log2",
+           "maximum", "minimum", "svd", "eigh", "sort", "argsort", "flip", "log", "log2",
            "exp", "logsumexp", "sin", "cos", "tan", "kron_", "randn", "gamma"):
     if _n not in GBackend.__dict__:
         setattr(GBackend, _n, _undecided(_n))
